@@ -325,6 +325,17 @@ class Checker:
             fields2 = list(fields)
             fields2[change] = alt
             data2, err2 = encode(self.enc, build_message(d, fields2))
+            # the application keeps ONE message object, updates the field in place and sends it again through the same encoder
+            msg = build_message(d, fields)
+            encode(self.enc, msg)
+            msg.fields[change].value, msg.fields[change].raw_value = alt["value"], alt["raw_value"]
+            data3, err3 = encode(self.enc, msg)
+            if data3 != data2:
+                ctx.klass("in_place_update_differs")
+                out.append((f"C09|in-place-update|{f.type}|{d.key}/{f.id}", f"{f.id} updated in place to {alt['cls']} value={alt['value']!r} raw_value={alt['raw_value']!r} and "
+                            f"encoded again through the same encoder: {data3.hex() if data3 is not None else type(err3).__name__}, "
+                            f"a new message with these values encodes as {data2.hex() if data2 is not None else type(err2).__name__}",
+                            self.describe(d, fields, None, change, alt)))
             if data2 is not None:
                 ctx.klass("metamorphic_pairs")
                 m = ((1 << f.bits) - 1) << f.offset_bits
